@@ -177,7 +177,7 @@ def run_property(pid, tier, seed, jobs=None, write_baseline=False, only_units=No
     known_lines = []
     for k, r in sorted(results.items()):
         for kf in r["extra"].get("known_findings", []):
-            if kf.get("reproduced"):
+            if kf.get("reproduced") and any(k_.get("id") == kf["id"] and k_.get("status") == "known" for k_ in known):
                 known_lines.append(f"KNOWN-FINDING: property={pid} {kf['id']} {kf['what']}")
     seen_fn = {}
     for o in bad:
